@@ -20,8 +20,8 @@ LEVEL = "proof"
 MANIFEST = dict(
     category="proof",
     text="Lean 4 theorems (all lists of declarations, all scopes) over a model of GenFunctions.define_function_suffix (default-argument "
-         "clones, function-template clones incl. per-instantiation default variants, class-template instantiation scopes and "
-         "template_function2 members, overload numbering, bufferify and fortran_generic clones), Namify, util.un_camel, the wrapf "
+         "clones, function-template clones and class-template members incl. per-instantiation default variants, class-template "
+         "instantiation scopes, template_function2 members, overload numbering, bufferify and fortran_generic clones), Namify, util.un_camel, the wrapf "
          "generic tables (module interfaces and per-class type-bound generics) and the wrapp/wrapl method tables. Proved: un_camel "
          "characterisation (inserts, no upper case, idempotent); entry-point counts for C and Fortran; C_name/F_name predictability from "
          "the name templates and class-instantiation scope; pairwise distinct C symbols and Fortran specifics of a scope for the whole "
@@ -1306,7 +1306,9 @@ def run(ctx):
     ctx.cov["rule"] = ("expansion: every per-function configuration below the bound (<=2 defaults x <=2 instantiations x <=2 generics x "
                        "explicit/default suffixes), all pairs/triples of overloads over reduced configurations, <=3 names, namespaces nested "
                        "up to 3 deep with and without F_flatten_namespace, classes inside namespaces, 2-4 classes per module sharing method names, "
-                       "class templates with 1-3 instantiations and members using the template parameter, same names in several scopes, "
+                       "class templates with 1-3 instantiations and members using the template parameter, declarations grouped in `block:` "
+                       "groups, overload sets adjacent / interleaved / split by other declarations wrapped for all four languages, same names "
+                       "in several scopes, "
                        "explicit C_prefix, all wrap-flag combinations; seeded random programs above the bound. un_camel: every string over "
                        "{a,B,C,1,_} up to a length bound + random identifiers + frozen documented table. Non-trivial = the implementation "
                        "produced at least one clone; distinct = distinct request lines.")
